@@ -849,12 +849,14 @@ class LogixDriver(CIPDriver):
         member = {"offset": UDINT.decode(stream)}
         tag_type = "atomic"
 
-        data_type = DataTypes.get(typ)
+        is_struct = bool(typ & 0b_1000_0000_0000_0000)  # bit 15, 1 = struct, 0 = atomic (as in symbol types)
+        data_type = None if is_struct else DataTypes.get(typ)
         if data_type:
             type_class = DataTypes.get_type(typ)
         if data_type is None:
             instance_id = typ & 0b0000_1111_1111_1111
-            type_class = DataTypes.get_type(instance_id)
+            # a template id may equal an elementary type code, only atomic members are looked up by code
+            type_class = None if is_struct else DataTypes.get_type(instance_id)
             if type_class:
                 data_type = str(type_class)
         if data_type is None:
